@@ -20,13 +20,13 @@ macro "pstep_cases" h:ident : tactic =>
              all_goals (first | subst $h:ident | (obtain ⟨_, $h:ident⟩ := $h:ident; subst $h:ident) | skip)))
 
 set_option maxHeartbeats 4000000 in
-theorem winv_step_callSend (s s' : St) (f v : _) (hk : s.kind ≠ .bounded) (hq : QInv s) (hw : WInv s) (hs : step s (.callSend f v) = some s') : WInv s' := by
+theorem winv_step_callSend (s s' : St) (f v : _) (hk : s.kind ≠ .bounded) (hq : QInv s) (hw : WInv s) (hsp : s.spin = false) (hs : step s (.callSend f v) = some s') : WInv s' := by
   have hW := hw
   have hrecv := hq.recv_id
   have hord := hq.ord
   obtain ⟨hp, w2, w3, w4, w5, w6, w7, w8, w9⟩ := hw
   obtain ⟨p1, p2, p3, p4, p5, p6, p7, p8, p9, p10, p11, p12⟩ := hp
-  simp only [step] at hs
+  simp only [step, emptyPc, pubPc, hsp, Bool.false_eq_true, ↓reduceIte] at hs
   repeat' (split at hs)
   all_goals (try simp at hs)
   all_goals (try contradiction)
@@ -34,13 +34,13 @@ theorem winv_step_callSend (s s' : St) (f v : _) (hk : s.kind ≠ .bounded) (hq 
   all_goals (refine ⟨hW.pinv, ?_, ?_, ?_, ?_, ?_, ?_, ?_, ?_⟩ <;> cw_close)
 
 set_option maxHeartbeats 4000000 in
-theorem winv_step_woke (s s' : St) (f r : _) (hk : s.kind ≠ .bounded) (hq : QInv s) (hw : WInv s) (hs : step s (.woke f r) = some s') : WInv s' := by
+theorem winv_step_woke (s s' : St) (f r : _) (hk : s.kind ≠ .bounded) (hq : QInv s) (hw : WInv s) (hsp : s.spin = false) (hs : step s (.woke f r) = some s') : WInv s' := by
   have hW := hw
   have hrecv := hq.recv_id
   have hord := hq.ord
   obtain ⟨hp, w2, w3, w4, w5, w6, w7, w8, w9⟩ := hw
   obtain ⟨p1, p2, p3, p4, p5, p6, p7, p8, p9, p10, p11, p12⟩ := hp
-  simp only [step] at hs
+  simp only [step, emptyPc, pubPc, hsp, Bool.false_eq_true, ↓reduceIte] at hs
   repeat' (split at hs)
   all_goals (try simp at hs)
   all_goals (try contradiction)
@@ -48,13 +48,13 @@ theorem winv_step_woke (s s' : St) (f r : _) (hk : s.kind ≠ .bounded) (hq : QI
   all_goals (refine ⟨hW.pinv, ?_, ?_, ?_, ?_, ?_, ?_, ?_, ?_⟩ <;> cw_close)
 
 set_option maxHeartbeats 4000000 in
-theorem winv_step_retSend (s s' : St) (f : _) (hk : s.kind ≠ .bounded) (hq : QInv s) (hw : WInv s) (hs : step s (.retSend f) = some s') : WInv s' := by
+theorem winv_step_retSend (s s' : St) (f : _) (hk : s.kind ≠ .bounded) (hq : QInv s) (hw : WInv s) (hsp : s.spin = false) (hs : step s (.retSend f) = some s') : WInv s' := by
   have hW := hw
   have hrecv := hq.recv_id
   have hord := hq.ord
   obtain ⟨hp, w2, w3, w4, w5, w6, w7, w8, w9⟩ := hw
   obtain ⟨p1, p2, p3, p4, p5, p6, p7, p8, p9, p10, p11, p12⟩ := hp
-  simp only [step] at hs
+  simp only [step, emptyPc, pubPc, hsp, Bool.false_eq_true, ↓reduceIte] at hs
   repeat' (split at hs)
   all_goals (try simp at hs)
   all_goals (try contradiction)
@@ -62,13 +62,13 @@ theorem winv_step_retSend (s s' : St) (f : _) (hk : s.kind ≠ .bounded) (hq : Q
   all_goals (refine ⟨hW.pinv, ?_, ?_, ?_, ?_, ?_, ?_, ?_, ?_⟩ <;> cw_close)
 
 set_option maxHeartbeats 4000000 in
-theorem winv_step_callRecv (s s' : St) (f : _) (hk : s.kind ≠ .bounded) (hq : QInv s) (hw : WInv s) (hs : step s (.callRecv f) = some s') : WInv s' := by
+theorem winv_step_callRecv (s s' : St) (f : _) (hk : s.kind ≠ .bounded) (hq : QInv s) (hw : WInv s) (hsp : s.spin = false) (hs : step s (.callRecv f) = some s') : WInv s' := by
   have hW := hw
   have hrecv := hq.recv_id
   have hord := hq.ord
   obtain ⟨hp, w2, w3, w4, w5, w6, w7, w8, w9⟩ := hw
   obtain ⟨p1, p2, p3, p4, p5, p6, p7, p8, p9, p10, p11, p12⟩ := hp
-  simp only [step] at hs
+  simp only [step, emptyPc, pubPc, hsp, Bool.false_eq_true, ↓reduceIte] at hs
   repeat' (split at hs)
   all_goals (try simp at hs)
   all_goals (try contradiction)
@@ -76,13 +76,13 @@ theorem winv_step_callRecv (s s' : St) (f : _) (hk : s.kind ≠ .bounded) (hq : 
   all_goals (refine ⟨hW.pinv, ?_, ?_, ?_, ?_, ?_, ?_, ?_, ?_⟩ <;> cw_close)
 
 set_option maxHeartbeats 4000000 in
-theorem winv_step_retRecv (s s' : St) (f v : _) (hk : s.kind ≠ .bounded) (hq : QInv s) (hw : WInv s) (hs : step s (.retRecv f v) = some s') : WInv s' := by
+theorem winv_step_callTry (s s' : St) (f : _) (hk : s.kind ≠ .bounded) (hq : QInv s) (hw : WInv s) (hsp : s.spin = false) (hs : step s (.callTry f) = some s') : WInv s' := by
   have hW := hw
   have hrecv := hq.recv_id
   have hord := hq.ord
   obtain ⟨hp, w2, w3, w4, w5, w6, w7, w8, w9⟩ := hw
   obtain ⟨p1, p2, p3, p4, p5, p6, p7, p8, p9, p10, p11, p12⟩ := hp
-  simp only [step] at hs
+  simp only [step, emptyPc, pubPc, hsp, Bool.false_eq_true, ↓reduceIte] at hs
   repeat' (split at hs)
   all_goals (try simp at hs)
   all_goals (try contradiction)
@@ -90,13 +90,13 @@ theorem winv_step_retRecv (s s' : St) (f v : _) (hk : s.kind ≠ .bounded) (hq :
   all_goals (refine ⟨hW.pinv, ?_, ?_, ?_, ?_, ?_, ?_, ?_, ?_⟩ <;> cw_close)
 
 set_option maxHeartbeats 4000000 in
-theorem winv_step_ldLow (s s' : St) (f l : _) (hk : s.kind ≠ .bounded) (hq : QInv s) (hw : WInv s) (hs : step s (.ldLow f l) = some s') : WInv s' := by
+theorem winv_step_retRecv (s s' : St) (f v : _) (hk : s.kind ≠ .bounded) (hq : QInv s) (hw : WInv s) (hsp : s.spin = false) (hs : step s (.retRecv f v) = some s') : WInv s' := by
   have hW := hw
   have hrecv := hq.recv_id
   have hord := hq.ord
   obtain ⟨hp, w2, w3, w4, w5, w6, w7, w8, w9⟩ := hw
   obtain ⟨p1, p2, p3, p4, p5, p6, p7, p8, p9, p10, p11, p12⟩ := hp
-  simp only [step] at hs
+  simp only [step, emptyPc, pubPc, hsp, Bool.false_eq_true, ↓reduceIte] at hs
   repeat' (split at hs)
   all_goals (try simp at hs)
   all_goals (try contradiction)
@@ -104,13 +104,13 @@ theorem winv_step_ldLow (s s' : St) (f l : _) (hk : s.kind ≠ .bounded) (hq : Q
   all_goals (refine ⟨hW.pinv, ?_, ?_, ?_, ?_, ?_, ?_, ?_, ?_⟩ <;> cw_close)
 
 set_option maxHeartbeats 4000000 in
-theorem winv_step_ldHigh (s s' : St) (f h : _) (hk : s.kind ≠ .bounded) (hq : QInv s) (hw : WInv s) (hs : step s (.ldHigh f h) = some s') : WInv s' := by
+theorem winv_step_ldLow (s s' : St) (f l : _) (hk : s.kind ≠ .bounded) (hq : QInv s) (hw : WInv s) (hsp : s.spin = false) (hs : step s (.ldLow f l) = some s') : WInv s' := by
   have hW := hw
   have hrecv := hq.recv_id
   have hord := hq.ord
   obtain ⟨hp, w2, w3, w4, w5, w6, w7, w8, w9⟩ := hw
   obtain ⟨p1, p2, p3, p4, p5, p6, p7, p8, p9, p10, p11, p12⟩ := hp
-  simp only [step] at hs
+  simp only [step, emptyPc, pubPc, hsp, Bool.false_eq_true, ↓reduceIte] at hs
   repeat' (split at hs)
   all_goals (try simp at hs)
   all_goals (try contradiction)
@@ -118,13 +118,13 @@ theorem winv_step_ldHigh (s s' : St) (f h : _) (hk : s.kind ≠ .bounded) (hq : 
   all_goals (refine ⟨hW.pinv, ?_, ?_, ?_, ?_, ?_, ?_, ?_, ?_⟩ <;> cw_close)
 
 set_option maxHeartbeats 4000000 in
-theorem winv_step_rBuf (s s' : St) (f i x : _) (hk : s.kind ≠ .bounded) (hq : QInv s) (hw : WInv s) (hs : step s (.rBuf f i x) = some s') : WInv s' := by
+theorem winv_step_ldHigh (s s' : St) (f h : _) (hk : s.kind ≠ .bounded) (hq : QInv s) (hw : WInv s) (hsp : s.spin = false) (hs : step s (.ldHigh f h) = some s') : WInv s' := by
   have hW := hw
   have hrecv := hq.recv_id
   have hord := hq.ord
   obtain ⟨hp, w2, w3, w4, w5, w6, w7, w8, w9⟩ := hw
   obtain ⟨p1, p2, p3, p4, p5, p6, p7, p8, p9, p10, p11, p12⟩ := hp
-  simp only [step] at hs
+  simp only [step, emptyPc, pubPc, hsp, Bool.false_eq_true, ↓reduceIte] at hs
   repeat' (split at hs)
   all_goals (try simp at hs)
   all_goals (try contradiction)
@@ -132,13 +132,13 @@ theorem winv_step_rBuf (s s' : St) (f i x : _) (hk : s.kind ≠ .bounded) (hq : 
   all_goals (refine ⟨hW.pinv, ?_, ?_, ?_, ?_, ?_, ?_, ?_, ?_⟩ <;> cw_close)
 
 set_option maxHeartbeats 4000000 in
-theorem winv_step_casHigh (s s' : St) (f a b c ok : _) (hk : s.kind ≠ .bounded) (hq : QInv s) (hw : WInv s) (hs : step s (.casHigh f a b c ok) = some s') : WInv s' := by
+theorem winv_step_rBuf (s s' : St) (f i x : _) (hk : s.kind ≠ .bounded) (hq : QInv s) (hw : WInv s) (hsp : s.spin = false) (hs : step s (.rBuf f i x) = some s') : WInv s' := by
   have hW := hw
   have hrecv := hq.recv_id
   have hord := hq.ord
   obtain ⟨hp, w2, w3, w4, w5, w6, w7, w8, w9⟩ := hw
   obtain ⟨p1, p2, p3, p4, p5, p6, p7, p8, p9, p10, p11, p12⟩ := hp
-  simp only [step] at hs
+  simp only [step, emptyPc, pubPc, hsp, Bool.false_eq_true, ↓reduceIte] at hs
   repeat' (split at hs)
   all_goals (try simp at hs)
   all_goals (try contradiction)
@@ -146,13 +146,13 @@ theorem winv_step_casHigh (s s' : St) (f a b c ok : _) (hk : s.kind ≠ .bounded
   all_goals (refine ⟨hW.pinv, ?_, ?_, ?_, ?_, ?_, ?_, ?_, ?_⟩ <;> cw_close)
 
 set_option maxHeartbeats 4000000 in
-theorem winv_step_wBuf (s s' : St) (f i x : _) (hk : s.kind ≠ .bounded) (hq : QInv s) (hw : WInv s) (hs : step s (.wBuf f i x) = some s') : WInv s' := by
+theorem winv_step_casHigh (s s' : St) (f a b c ok : _) (hk : s.kind ≠ .bounded) (hq : QInv s) (hw : WInv s) (hsp : s.spin = false) (hs : step s (.casHigh f a b c ok) = some s') : WInv s' := by
   have hW := hw
   have hrecv := hq.recv_id
   have hord := hq.ord
   obtain ⟨hp, w2, w3, w4, w5, w6, w7, w8, w9⟩ := hw
   obtain ⟨p1, p2, p3, p4, p5, p6, p7, p8, p9, p10, p11, p12⟩ := hp
-  simp only [step] at hs
+  simp only [step, emptyPc, pubPc, hsp, Bool.false_eq_true, ↓reduceIte] at hs
   repeat' (split at hs)
   all_goals (try simp at hs)
   all_goals (try contradiction)
@@ -160,13 +160,13 @@ theorem winv_step_wBuf (s s' : St) (f i x : _) (hk : s.kind ≠ .bounded) (hq : 
   all_goals (refine ⟨hW.pinv, ?_, ?_, ?_, ?_, ?_, ?_, ?_, ?_⟩ <;> cw_close)
 
 set_option maxHeartbeats 4000000 in
-theorem winv_step_stLow (s s' : St) (f l : _) (hk : s.kind ≠ .bounded) (hq : QInv s) (hw : WInv s) (hs : step s (.stLow f l) = some s') : WInv s' := by
+theorem winv_step_wBuf (s s' : St) (f i x : _) (hk : s.kind ≠ .bounded) (hq : QInv s) (hw : WInv s) (hsp : s.spin = false) (hs : step s (.wBuf f i x) = some s') : WInv s' := by
   have hW := hw
   have hrecv := hq.recv_id
   have hord := hq.ord
   obtain ⟨hp, w2, w3, w4, w5, w6, w7, w8, w9⟩ := hw
   obtain ⟨p1, p2, p3, p4, p5, p6, p7, p8, p9, p10, p11, p12⟩ := hp
-  simp only [step] at hs
+  simp only [step, emptyPc, pubPc, hsp, Bool.false_eq_true, ↓reduceIte] at hs
   repeat' (split at hs)
   all_goals (try simp at hs)
   all_goals (try contradiction)
@@ -174,13 +174,13 @@ theorem winv_step_stLow (s s' : St) (f l : _) (hk : s.kind ≠ .bounded) (hq : Q
   all_goals (refine ⟨hW.pinv, ?_, ?_, ?_, ?_, ?_, ?_, ?_, ?_⟩ <;> cw_close)
 
 set_option maxHeartbeats 4000000 in
-theorem winv_step_wNext (s s' : St) (f n x : _) (hk : s.kind ≠ .bounded) (hq : QInv s) (hw : WInv s) (hs : step s (.wNext f n x) = some s') : WInv s' := by
+theorem winv_step_stLow (s s' : St) (f l : _) (hk : s.kind ≠ .bounded) (hq : QInv s) (hw : WInv s) (hsp : s.spin = false) (hs : step s (.stLow f l) = some s') : WInv s' := by
   have hW := hw
   have hrecv := hq.recv_id
   have hord := hq.ord
   obtain ⟨hp, w2, w3, w4, w5, w6, w7, w8, w9⟩ := hw
   obtain ⟨p1, p2, p3, p4, p5, p6, p7, p8, p9, p10, p11, p12⟩ := hp
-  simp only [step] at hs
+  simp only [step, emptyPc, pubPc, hsp, Bool.false_eq_true, ↓reduceIte] at hs
   repeat' (split at hs)
   all_goals (try simp at hs)
   all_goals (try contradiction)
@@ -188,13 +188,13 @@ theorem winv_step_wNext (s s' : St) (f n x : _) (hk : s.kind ≠ .bounded) (hq :
   all_goals (refine ⟨hW.pinv, ?_, ?_, ?_, ?_, ?_, ?_, ?_, ?_⟩ <;> cw_close)
 
 set_option maxHeartbeats 4000000 in
-theorem winv_step_xchgTail (s s' : St) (f o n : _) (hk : s.kind ≠ .bounded) (hq : QInv s) (hw : WInv s) (hs : step s (.xchgTail f o n) = some s') : WInv s' := by
+theorem winv_step_wNext (s s' : St) (f n x : _) (hk : s.kind ≠ .bounded) (hq : QInv s) (hw : WInv s) (hsp : s.spin = false) (hs : step s (.wNext f n x) = some s') : WInv s' := by
   have hW := hw
   have hrecv := hq.recv_id
   have hord := hq.ord
   obtain ⟨hp, w2, w3, w4, w5, w6, w7, w8, w9⟩ := hw
   obtain ⟨p1, p2, p3, p4, p5, p6, p7, p8, p9, p10, p11, p12⟩ := hp
-  simp only [step] at hs
+  simp only [step, emptyPc, pubPc, hsp, Bool.false_eq_true, ↓reduceIte] at hs
   repeat' (split at hs)
   all_goals (try simp at hs)
   all_goals (try contradiction)
@@ -202,13 +202,13 @@ theorem winv_step_xchgTail (s s' : St) (f o n : _) (hk : s.kind ≠ .bounded) (h
   all_goals (refine ⟨hW.pinv, ?_, ?_, ?_, ?_, ?_, ?_, ?_, ?_⟩ <;> cw_close)
 
 set_option maxHeartbeats 4000000 in
-theorem winv_step_ldTail (s s' : St) (f t : _) (hk : s.kind ≠ .bounded) (hq : QInv s) (hw : WInv s) (hs : step s (.ldTail f t) = some s') : WInv s' := by
+theorem winv_step_xchgTail (s s' : St) (f o n : _) (hk : s.kind ≠ .bounded) (hq : QInv s) (hw : WInv s) (hsp : s.spin = false) (hs : step s (.xchgTail f o n) = some s') : WInv s' := by
   have hW := hw
   have hrecv := hq.recv_id
   have hord := hq.ord
   obtain ⟨hp, w2, w3, w4, w5, w6, w7, w8, w9⟩ := hw
   obtain ⟨p1, p2, p3, p4, p5, p6, p7, p8, p9, p10, p11, p12⟩ := hp
-  simp only [step] at hs
+  simp only [step, emptyPc, pubPc, hsp, Bool.false_eq_true, ↓reduceIte] at hs
   repeat' (split at hs)
   all_goals (try simp at hs)
   all_goals (try contradiction)
@@ -216,13 +216,13 @@ theorem winv_step_ldTail (s s' : St) (f t : _) (hk : s.kind ≠ .bounded) (hq : 
   all_goals (refine ⟨hW.pinv, ?_, ?_, ?_, ?_, ?_, ?_, ?_, ?_⟩ <;> cw_close)
 
 set_option maxHeartbeats 4000000 in
-theorem winv_step_stTail (s s' : St) (f n : _) (hk : s.kind ≠ .bounded) (hq : QInv s) (hw : WInv s) (hs : step s (.stTail f n) = some s') : WInv s' := by
+theorem winv_step_ldTail (s s' : St) (f t : _) (hk : s.kind ≠ .bounded) (hq : QInv s) (hw : WInv s) (hsp : s.spin = false) (hs : step s (.ldTail f t) = some s') : WInv s' := by
   have hW := hw
   have hrecv := hq.recv_id
   have hord := hq.ord
   obtain ⟨hp, w2, w3, w4, w5, w6, w7, w8, w9⟩ := hw
   obtain ⟨p1, p2, p3, p4, p5, p6, p7, p8, p9, p10, p11, p12⟩ := hp
-  simp only [step] at hs
+  simp only [step, emptyPc, pubPc, hsp, Bool.false_eq_true, ↓reduceIte] at hs
   repeat' (split at hs)
   all_goals (try simp at hs)
   all_goals (try contradiction)
@@ -230,13 +230,13 @@ theorem winv_step_stTail (s s' : St) (f n : _) (hk : s.kind ≠ .bounded) (hq : 
   all_goals (refine ⟨hW.pinv, ?_, ?_, ?_, ?_, ?_, ?_, ?_, ?_⟩ <;> cw_close)
 
 set_option maxHeartbeats 4000000 in
-theorem winv_step_rHead (s s' : St) (f h : _) (hk : s.kind ≠ .bounded) (hq : QInv s) (hw : WInv s) (hs : step s (.rHead f h) = some s') : WInv s' := by
+theorem winv_step_stTail (s s' : St) (f n : _) (hk : s.kind ≠ .bounded) (hq : QInv s) (hw : WInv s) (hsp : s.spin = false) (hs : step s (.stTail f n) = some s') : WInv s' := by
   have hW := hw
   have hrecv := hq.recv_id
   have hord := hq.ord
   obtain ⟨hp, w2, w3, w4, w5, w6, w7, w8, w9⟩ := hw
   obtain ⟨p1, p2, p3, p4, p5, p6, p7, p8, p9, p10, p11, p12⟩ := hp
-  simp only [step] at hs
+  simp only [step, emptyPc, pubPc, hsp, Bool.false_eq_true, ↓reduceIte] at hs
   repeat' (split at hs)
   all_goals (try simp at hs)
   all_goals (try contradiction)
@@ -244,13 +244,13 @@ theorem winv_step_rHead (s s' : St) (f h : _) (hk : s.kind ≠ .bounded) (hq : Q
   all_goals (refine ⟨hW.pinv, ?_, ?_, ?_, ?_, ?_, ?_, ?_, ?_⟩ <;> cw_close)
 
 set_option maxHeartbeats 4000000 in
-theorem winv_step_wHead (s s' : St) (f x : _) (hk : s.kind ≠ .bounded) (hq : QInv s) (hw : WInv s) (hs : step s (.wHead f x) = some s') : WInv s' := by
+theorem winv_step_rHead (s s' : St) (f h : _) (hk : s.kind ≠ .bounded) (hq : QInv s) (hw : WInv s) (hsp : s.spin = false) (hs : step s (.rHead f h) = some s') : WInv s' := by
   have hW := hw
   have hrecv := hq.recv_id
   have hord := hq.ord
   obtain ⟨hp, w2, w3, w4, w5, w6, w7, w8, w9⟩ := hw
   obtain ⟨p1, p2, p3, p4, p5, p6, p7, p8, p9, p10, p11, p12⟩ := hp
-  simp only [step] at hs
+  simp only [step, emptyPc, pubPc, hsp, Bool.false_eq_true, ↓reduceIte] at hs
   repeat' (split at hs)
   all_goals (try simp at hs)
   all_goals (try contradiction)
@@ -258,13 +258,13 @@ theorem winv_step_wHead (s s' : St) (f x : _) (hk : s.kind ≠ .bounded) (hq : Q
   all_goals (refine ⟨hW.pinv, ?_, ?_, ?_, ?_, ?_, ?_, ?_, ?_⟩ <;> cw_close)
 
 set_option maxHeartbeats 4000000 in
-theorem winv_step_rNext (s s' : St) (f n x : _) (hk : s.kind ≠ .bounded) (hq : QInv s) (hw : WInv s) (hs : step s (.rNext f n x) = some s') : WInv s' := by
+theorem winv_step_wHead (s s' : St) (f x : _) (hk : s.kind ≠ .bounded) (hq : QInv s) (hw : WInv s) (hsp : s.spin = false) (hs : step s (.wHead f x) = some s') : WInv s' := by
   have hW := hw
   have hrecv := hq.recv_id
   have hord := hq.ord
   obtain ⟨hp, w2, w3, w4, w5, w6, w7, w8, w9⟩ := hw
   obtain ⟨p1, p2, p3, p4, p5, p6, p7, p8, p9, p10, p11, p12⟩ := hp
-  simp only [step] at hs
+  simp only [step, emptyPc, pubPc, hsp, Bool.false_eq_true, ↓reduceIte] at hs
   repeat' (split at hs)
   all_goals (try simp at hs)
   all_goals (try contradiction)
@@ -272,13 +272,13 @@ theorem winv_step_rNext (s s' : St) (f n x : _) (hk : s.kind ≠ .bounded) (hq :
   all_goals (refine ⟨hW.pinv, ?_, ?_, ?_, ?_, ?_, ?_, ?_, ?_⟩ <;> cw_close)
 
 set_option maxHeartbeats 4000000 in
-theorem winv_step_rData (s s' : St) (f n d : _) (hk : s.kind ≠ .bounded) (hq : QInv s) (hw : WInv s) (hs : step s (.rData f n d) = some s') : WInv s' := by
+theorem winv_step_rNext (s s' : St) (f n x : _) (hk : s.kind ≠ .bounded) (hq : QInv s) (hw : WInv s) (hsp : s.spin = false) (hs : step s (.rNext f n x) = some s') : WInv s' := by
   have hW := hw
   have hrecv := hq.recv_id
   have hord := hq.ord
   obtain ⟨hp, w2, w3, w4, w5, w6, w7, w8, w9⟩ := hw
   obtain ⟨p1, p2, p3, p4, p5, p6, p7, p8, p9, p10, p11, p12⟩ := hp
-  simp only [step] at hs
+  simp only [step, emptyPc, pubPc, hsp, Bool.false_eq_true, ↓reduceIte] at hs
   repeat' (split at hs)
   all_goals (try simp at hs)
   all_goals (try contradiction)
@@ -286,13 +286,27 @@ theorem winv_step_rData (s s' : St) (f n d : _) (hk : s.kind ≠ .bounded) (hq :
   all_goals (refine ⟨hW.pinv, ?_, ?_, ?_, ?_, ?_, ?_, ?_, ?_⟩ <;> cw_close)
 
 set_option maxHeartbeats 4000000 in
-theorem winv_step_wData (s s' : St) (f n d : _) (hk : s.kind ≠ .bounded) (hq : QInv s) (hw : WInv s) (hs : step s (.wData f n d) = some s') : WInv s' := by
+theorem winv_step_rData (s s' : St) (f n d : _) (hk : s.kind ≠ .bounded) (hq : QInv s) (hw : WInv s) (hsp : s.spin = false) (hs : step s (.rData f n d) = some s') : WInv s' := by
   have hW := hw
   have hrecv := hq.recv_id
   have hord := hq.ord
   obtain ⟨hp, w2, w3, w4, w5, w6, w7, w8, w9⟩ := hw
   obtain ⟨p1, p2, p3, p4, p5, p6, p7, p8, p9, p10, p11, p12⟩ := hp
-  simp only [step] at hs
+  simp only [step, emptyPc, pubPc, hsp, Bool.false_eq_true, ↓reduceIte] at hs
+  repeat' (split at hs)
+  all_goals (try simp at hs)
+  all_goals (try contradiction)
+  all_goals (first | subst hs | (obtain ⟨_, hs⟩ := hs; subst hs))
+  all_goals (refine ⟨hW.pinv, ?_, ?_, ?_, ?_, ?_, ?_, ?_, ?_⟩ <;> cw_close)
+
+set_option maxHeartbeats 4000000 in
+theorem winv_step_wData (s s' : St) (f n d : _) (hk : s.kind ≠ .bounded) (hq : QInv s) (hw : WInv s) (hsp : s.spin = false) (hs : step s (.wData f n d) = some s') : WInv s' := by
+  have hW := hw
+  have hrecv := hq.recv_id
+  have hord := hq.ord
+  obtain ⟨hp, w2, w3, w4, w5, w6, w7, w8, w9⟩ := hw
+  obtain ⟨p1, p2, p3, p4, p5, p6, p7, p8, p9, p10, p11, p12⟩ := hp
+  simp only [step, emptyPc, pubPc, hsp, Bool.false_eq_true, ↓reduceIte] at hs
   repeat' (split at hs)
   all_goals (try simp at hs)
   all_goals (try contradiction)
@@ -432,7 +446,7 @@ theorem winv_step_p_setWait (s s' : St) (g f : Nat) (hk : s.kind ≠ .bounded) (
   all_goals (refine ⟨hp', ?_, ?_, ?_, ?_, ?_, ?_, ?_, ?_⟩ <;> cw_close)
 
 theorem winv_step (s s' : St) (e : Ev) (hk : s.kind ≠ .bounded) (hq : QInv s) (hw : WInv s)
-    (hs : step s e = some s') : WInv s' := by
+    (hsp : s.spin = false) (hs : step s e = some s') : WInv s' := by
   cases e with
   | p pe =>
     cases pe with
@@ -448,35 +462,37 @@ theorem winv_step (s s' : St) (e : Ev) (hk : s.kind ≠ .bounded) (hq : QInv s) 
     | stNone f => exact winv_step_p_stNone s s' f hk hq hw hs
     | rScratch f g r => exact winv_step_p_rScratch s s' f g r hk hq hw hs
     | wStateReady f g => exact winv_step_p_wStateReady s s' f g hk hq hw hs
-  | callSend f v => exact winv_step_callSend s s' f v hk hq hw hs
-  | woke f r => exact winv_step_woke s s' f r hk hq hw hs
-  | retSend f => exact winv_step_retSend s s' f hk hq hw hs
-  | callRecv f => exact winv_step_callRecv s s' f hk hq hw hs
-  | retRecv f v => exact winv_step_retRecv s s' f v hk hq hw hs
-  | ldLow f l => exact winv_step_ldLow s s' f l hk hq hw hs
-  | ldHigh f h => exact winv_step_ldHigh s s' f h hk hq hw hs
-  | rBuf f i x => exact winv_step_rBuf s s' f i x hk hq hw hs
-  | casHigh f a b c ok => exact winv_step_casHigh s s' f a b c ok hk hq hw hs
-  | wBuf f i x => exact winv_step_wBuf s s' f i x hk hq hw hs
-  | stLow f l => exact winv_step_stLow s s' f l hk hq hw hs
-  | wNext f n x => exact winv_step_wNext s s' f n x hk hq hw hs
-  | xchgTail f o n => exact winv_step_xchgTail s s' f o n hk hq hw hs
-  | ldTail f t => exact winv_step_ldTail s s' f t hk hq hw hs
-  | stTail f n => exact winv_step_stTail s s' f n hk hq hw hs
-  | rHead f h => exact winv_step_rHead s s' f h hk hq hw hs
-  | wHead f x => exact winv_step_wHead s s' f x hk hq hw hs
-  | rNext f n x => exact winv_step_rNext s s' f n x hk hq hw hs
-  | rData f n d => exact winv_step_rData s s' f n d hk hq hw hs
-  | wData f n d => exact winv_step_wData s s' f n d hk hq hw hs
+  | callSend f v => exact winv_step_callSend s s' f v hk hq hw hsp hs
+  | woke f r => exact winv_step_woke s s' f r hk hq hw hsp hs
+  | retSend f => exact winv_step_retSend s s' f hk hq hw hsp hs
+  | callRecv f => exact winv_step_callRecv s s' f hk hq hw hsp hs
+  | callTry f => exact winv_step_callTry s s' f hk hq hw hsp hs
+  | retRecv f v => exact winv_step_retRecv s s' f v hk hq hw hsp hs
+  | ldLow f l => exact winv_step_ldLow s s' f l hk hq hw hsp hs
+  | ldHigh f h => exact winv_step_ldHigh s s' f h hk hq hw hsp hs
+  | rBuf f i x => exact winv_step_rBuf s s' f i x hk hq hw hsp hs
+  | casHigh f a b c ok => exact winv_step_casHigh s s' f a b c ok hk hq hw hsp hs
+  | wBuf f i x => exact winv_step_wBuf s s' f i x hk hq hw hsp hs
+  | stLow f l => exact winv_step_stLow s s' f l hk hq hw hsp hs
+  | wNext f n x => exact winv_step_wNext s s' f n x hk hq hw hsp hs
+  | xchgTail f o n => exact winv_step_xchgTail s s' f o n hk hq hw hsp hs
+  | ldTail f t => exact winv_step_ldTail s s' f t hk hq hw hsp hs
+  | stTail f n => exact winv_step_stTail s s' f n hk hq hw hsp hs
+  | rHead f h => exact winv_step_rHead s s' f h hk hq hw hsp hs
+  | wHead f x => exact winv_step_wHead s s' f x hk hq hw hsp hs
+  | rNext f n x => exact winv_step_rNext s s' f n x hk hq hw hsp hs
+  | rData f n d => exact winv_step_rData s s' f n d hk hq hw hsp hs
+  | wData f n d => exact winv_step_wData s s' f n d hk hq hw hsp hs
 
 theorem winv_of_run {k : Kind} {cap : Nat} (hk : k ≠ .bounded) {es : List Ev} {s : St}
-    (h : (sys k cap).run es = some s) : WInv s := by
-  have : s.kind = k ∧ QInv s ∧ WInv s :=
-    Sys.inv_of_run (sys k cap) (fun s => s.kind = k ∧ QInv s ∧ WInv s) ⟨rfl, qinv_init k cap, winv_init k cap⟩
+    (h : (sysM false k cap).run es = some s) : WInv s := by
+  have : (s.kind = k ∧ s.spin = false) ∧ QInv s ∧ WInv s :=
+    Sys.inv_of_run (sysM false k cap) (fun s => (s.kind = k ∧ s.spin = false) ∧ QInv s ∧ WInv s)
+      ⟨⟨rfl, rfl⟩, qinv_init k cap, winv_init k cap⟩
       (fun s e s' hi hs => by
-        have hk' : s.kind ≠ .bounded := by rw [hi.1]; exact hk
-        exact ⟨(kind_step s s' e hs).1.trans hi.1, qinv_step s s' e hk' hi.2.1 hs,
-          winv_step s s' e hk' hi.2.1 hi.2.2 hs⟩) h
+        have hk' : s.kind ≠ .bounded := by rw [hi.1.1]; exact hk
+        exact ⟨⟨(kind_step s s' e hs).1.trans hi.1.1, (spin_step s s' e hs).trans hi.1.2⟩,
+          qinv_step s s' e hk' hi.2.1 hs, winv_step s s' e hk' hi.2.1 hi.2.2 hi.1.2 hs⟩) h
   exact this.2.2
 
 /-- `receiver_resumed` (queue kinds): if a message is linked at the head while no sender is
